@@ -284,6 +284,8 @@ def graph_level(sp, col, shard):
                                          sp, [x['assign'] for k in miss for x in ref[k]]),
                                      linked_full_nonzero_only=common.linked_full_nonzero_only(
                                          sp, [x['assign'] for k in miss for x in ref[k]]),
+                                     linked_mixed_only=common.linked_mixed_only(
+                                         sp, [x['assign'] for k in miss for x in ref[k]]),
                                      linked_forced_is_first=common.linked_forced_is_first(gp)))
         if enc == 'COMPLETE':
             try:
